@@ -293,14 +293,65 @@ fn build_ops(len: usize, salt: u64) -> Vec<Op> {
 
 /// Exhaustive small scope: every iterator kind, every length 0..=max_len,
 /// every next/next_back pattern up to `len + extra` calls.
+/// Positional calls (`nth`, `nth_back`) and finishing consumers (`count`,
+/// `last`, `for_each`, `rev`, `skip`, `step_by`, `take`): every sequence of
+/// at most two calls from {next, next_back, nth(a), nth_back(a)} with `a`
+/// around what remains, followed by every finishing consumer.
+fn positional_plans(len: usize, thin: bool, salt: u64) -> Vec<(Vec<Call>, Rest)> {
+    let mut args: Vec<u8> = vec![0, 1, len.saturating_sub(2) as u8, len.saturating_sub(1) as u8, len as u8, len as u8 + 1];
+    args.sort();
+    args.dedup();
+    let mut alphabet = vec![Call::Next, Call::NextBack];
+    for &a in &args {
+        alphabet.push(Call::Nth(a));
+        alphabet.push(Call::NthBack(a));
+    }
+    let mut seqs: Vec<Vec<Call>> = vec![vec![]];
+    for &c in &alphabet {
+        seqs.push(vec![c]);
+        for &d in &alphabet {
+            seqs.push(vec![c, d]);
+        }
+    }
+    let l = len as u8;
+    let mut fins = vec![Rest::Stop, Rest::Front, Rest::Back, Rest::Count, Rest::Last, Rest::Fold, Rest::RFold,
+        Rest::Skip(0), Rest::Skip(1), Rest::Skip(l.saturating_sub(1)), Rest::Skip(l), Rest::Skip(l + 1),
+        Rest::StepBy(0), Rest::StepBy(1), Rest::StepBy(2), Rest::StepBy(l), Rest::RevStepBy(1), Rest::RevStepBy(2),
+        Rest::TakeThenFront(0), Rest::TakeThenFront(1), Rest::TakeThenFront(l)];
+    fins.dedup();
+    let mut out = Vec::new();
+    let mut n = 0u64;
+    for s in &seqs {
+        for &f in &fins {
+            // plain next/next_back walks without a finishing consumer are the other engine's job
+            if !f.finishing() && !s.iter().any(|c| c.positional()) {
+                continue;
+            }
+            n += 1;
+            if thin && derive_seed(salt, n, 77) % 4 != 0 {
+                continue;
+            }
+            out.push((s.clone(), f));
+        }
+    }
+    out
+}
+
 pub fn worker_walks(a: &WorkerArgs, fate: Fate, max_len: usize, extra: usize) -> Accum {
     let mut acc = Accum::default();
     let prop = a.prop;
     let mut n: u64 = 0;
+    let positional = extra == usize::MAX;
     'all: for len in 0..=max_len {
-        let patterns = all_patterns(len + extra);
+        let plans: Vec<(Vec<Call>, Rest)> = if positional {
+            // the quick tier thins the longer lengths to a seeded quarter
+            positional_plans(len, !a.thorough && len >= 4, a.seed)
+        }
+        else {
+            all_patterns(len + extra).iter().map(|p| (calls_of(p), Rest::Stop)).collect()
+        };
         for kind in ITER_KINDS {
-            for pat in &patterns {
+            for (calls, rest) in &plans {
                 n += 1;
                 if n % a.nworkers != a.index {
                     continue;
@@ -309,7 +360,7 @@ pub fn worker_walks(a: &WorkerArgs, fate: Fate, max_len: usize, extra: usize) ->
                 let hasher = ALL_HKINDS[(salt % 9) as usize];
                 let capacity = CAPACITIES[((salt >> 8) % 9) as usize];
                 let mut ops = build_ops(len, salt);
-                ops.push(Op::IterWalk { kind, calls: pat.clone(), rest: Rest::Stop, fate });
+                ops.push(Op::IterWalk { kind, calls: calls.clone(), rest: *rest, fate });
                 // further use
                 ops.push(Op::Insert { key: KeySel::Absent(0), kheap: 0, size: SizeSel::Abs(1) });
                 ops.push(Op::Get { key: KeySel::Lru, form: Form::Borrowed });
@@ -318,7 +369,7 @@ pub fn worker_walks(a: &WorkerArgs, fate: Fate, max_len: usize, extra: usize) ->
                     ops.push(Op::SetMaxSize(LimSel::Max));
                     ops.push(Op::Reserve(CapArg::LenPlus(3)));
                     ops.push(Op::Insert { key: KeySel::Absent(3), kheap: 0, size: SizeSel::Abs(1) });
-                    ops.push(Op::IterWalk { kind: IterKind::Drain, calls: vec![false], rest: Rest::Stop, fate: Fate::Drop });
+                    ops.push(Op::IterWalk { kind: IterKind::Drain, calls: vec![Call::Next], rest: Rest::Stop, fate: Fate::Drop });
                     ops.push(Op::Clone(CloneMode::Check));
                     ops.push(Op::ShrinkToFit);
                 }
@@ -350,7 +401,7 @@ pub fn worker_walks(a: &WorkerArgs, fate: Fate, max_len: usize, extra: usize) ->
             }
         }
     }
-    acc.exhaustive = acc.violations.is_empty();
+    acc.exhaustive = acc.violations.is_empty() && !(positional && !a.thorough);
     acc
 }
 
@@ -499,6 +550,69 @@ pub fn worker_mem_big(a: &WorkerArgs) -> Accum {
                 },
             }
         }
+    }
+    acc
+}
+
+// ------------------------------------------------- more than 2^16 entries
+
+/// Generated scripts of bulk steps over caches of 65 536 .. 300 000 entries
+/// (`huge.rs`). Seeds come from the proptest runner; a failing script is
+/// minimised by dropping steps.
+pub fn worker_huge(a: &WorkerArgs) -> Accum {
+    use crate::huge::{case_from_seed, run_huge, HugeCase};
+    use proptest::prelude::*;
+    let mut acc = Accum::default();
+    let prop = a.prop;
+    let mut runner = TestRunner::new(pt_config(a.cases, derive_seed(a.seed, a.index, 21)));
+    let seeds: Vec<u64> = {
+        let out = RefCell::new(Vec::new());
+        let _ = runner.run(&any::<u64>(), |s| { out.borrow_mut().push(s); Ok(()) });
+        out.into_inner()
+    };
+    let fails_for = |c: &HugeCase| -> Vec<MemFailure> { run_huge(c).fails };
+    let mine = |fails: &[MemFailure]| -> Option<MemFailure> {
+        fails.iter().find(|f| f.tags.contains(&prop) && is_known(a.known, prop, &f.sig).is_none()).cloned()
+    };
+    for seed in seeds {
+        let case = case_from_seed(seed, a.thorough);
+        write_current(a.out, &case.to_text());
+        let out = run_huge(&case);
+        acc.cases += 1;
+        acc.steps += out.checks;
+        if let Some(f) = mine(&out.fails) {
+            // minimise: drop steps (never the initial fill) while the failure persists
+            let mut cur = case.clone();
+            let mut i = 1;
+            while i < cur.steps.len() {
+                let mut cand = cur.clone();
+                cand.steps.remove(i);
+                if mine(&fails_for(&cand)).is_some() { cur = cand; } else { i += 1; }
+            }
+            let f2 = mine(&fails_for(&cur)).unwrap_or(f);
+            acc.violations.push(Violation {
+                replay_text: format!("# replay for property {}
+# [{}] {}
+{}", prop, f2.sig, f2.msg, cur.to_text()),
+                msg: f2.msg.clone(), sig: f2.sig.clone() });
+            break;
+        }
+        if let Some(f) = out.fails.first() {
+            if f.tags.contains(&prop) {
+                *acc.known.entry(f.sig.clone()).or_insert(0) += 1;
+            }
+            else {
+                *acc.foreign.entry(format!("{}:{}", f.tags.join("+"), f.sig)).or_insert(0) += 1;
+            }
+            continue;
+        }
+        acc.nt_cases += 1;
+        for s in case.steps.iter().skip(1) {
+            let t = s.to_text();
+            acc.nt.insert(format!("huge|{}|{}", t.split(':').next().unwrap_or(""), if out.entries_peak > 131_072 { ">2^17" } else { ">2^16" }));
+            *acc.events.entry(format!("huge.{}", t.split(':').next().unwrap_or(""))).or_insert(0) += 1;
+        }
+        if acc.samples.len() < 2 { acc.samples.push(case.to_text().trim().to_string()); }
     }
     acc
 }
@@ -843,7 +957,7 @@ pub fn geometry_cases() -> Vec<Case> {
                                 firsts.push(vec![Op::SetMaxSize(LimSel::CurPlus(0)), Op::Mutate { key: KeySel::Lru, form: Form::Borrowed, size: SizeSel::MaxPlus(0) }]);
                                 firsts.push(vec![Op::Clone(CloneMode::Swap)]);
                                 firsts.push(vec![Op::Clone(CloneMode::From)]);
-                                firsts.push(vec![Op::IterWalk { kind: IterKind::Drain, calls: vec![false, true], rest: Rest::Stop, fate: Fate::Drop }]);
+                                firsts.push(vec![Op::IterWalk { kind: IterKind::Drain, calls: vec![Call::Next, Call::NextBack], rest: Rest::Stop, fate: Fate::Drop }]);
                             }
                             firsts.push(vec![Op::Clear]);
                             firsts.push(vec![Op::ShrinkToFit]);
@@ -853,7 +967,7 @@ pub fn geometry_cases() -> Vec<Case> {
                             let mut ops = build.clone();
                             ops.extend(first);
                             ops.push(Op::Get { key: KeySel::Lru, form: Form::Owned });
-                            ops.push(Op::IterWalk { kind: IterKind::Iter, calls: vec![true], rest: Rest::Front, fate: Fate::Drop });
+                            ops.push(Op::IterWalk { kind: IterKind::Iter, calls: vec![Call::NextBack], rest: Rest::Front, fate: Fate::Drop });
                             ops.push(Op::Insert { key: KeySel::Raw((3 * b + 1) as u16), kheap: 0, size: SizeSel::Zero });
                             ops.push(Op::TryInsert { key: KeySel::Raw((3 * b + 2) as u16), kheap: 0, size: SizeSel::Zero });
                             ops.push(Op::Remove { key: KeySel::Mru, form: Form::Borrowed });
@@ -908,7 +1022,7 @@ pub fn geometry_cases() -> Vec<Case> {
                         let mut ops = build.clone();
                         ops.extend(first);
                         ops.push(Op::Get { key: KeySel::Lru, form: Form::Owned });
-                        ops.push(Op::IterWalk { kind: IterKind::Iter, calls: vec![true], rest: Rest::Front, fate: Fate::Drop });
+                        ops.push(Op::IterWalk { kind: IterKind::Iter, calls: vec![Call::NextBack], rest: Rest::Front, fate: Fate::Drop });
                         ops.push(ins(displaced));
                         ops.push(Op::Remove { key: KeySel::Mru, form: Form::Borrowed });
                         ops.push(Op::Clone(CloneMode::Check));
